@@ -194,11 +194,14 @@ impl store::Cob for Issue {
     ) -> Result<(), Error> {
         let doc = op.identity_doc(repo)?.ok_or(Error::MissingIdentity)?;
         let concurrent = concurrent.into_iter().collect::<Vec<_>>();
+        // N.b. an operation is applied entirely, or not at all: when one of its
+        // actions is rejected, the actions before it must not leave a trace.
+        let mut issue = self.clone();
 
         for action in op.actions {
             log::trace!(target: "issue", "Applying {} {action:?}", op.id);
 
-            if let Err(e) = self.op_action(
+            if let Err(e) = issue.op_action(
                 action,
                 op.id,
                 op.author,
@@ -211,6 +214,8 @@ impl store::Cob for Issue {
                 return Err(e);
             }
         }
+        *self = issue;
+
         Ok(())
     }
 }
